@@ -50,8 +50,13 @@ def _collapse_invariants(
     if invariants_dunder in namespace:
         invariants.extend(namespace[invariants_dunder])
 
-    # Change the final invariants in the namespace
-    if invariants:
+    # Change the final invariants in the namespace.
+    #
+    # The class must get a list of its own as soon as one of the bases has one, even if the list is empty
+    # (*e.g.*, the invariants to be checked on ``__setattr__`` of a class with call-only invariants). Otherwise,
+    # the class would share the list with its base, and an invariant added to the class by the invariant decorator
+    # would also be added to the base and all of its descendants.
+    if invariants or any(hasattr(base, invariants_dunder) for base in bases):
         namespace[invariants_dunder] = invariants
 
     # endregion
